@@ -69,7 +69,10 @@ Fixpoint sample_loop (o : oracle) (f : Z -> Z) (fuel : nat) (n : Z) (s : sampler
 Definition rsample (o : oracle) (sw : list (Z * Z)) (n k : Z) : result (list Z) :=
   if k <? 0 then Panic PNeg                                      (* make([]int, k) *)
   else pbind (sample_loop o (fun x => x) (S (Z.to_nat n)) n (new_sampler k) (zeros k)) (fun out =>
-       shuffle sw (if n <? k then zfirstn n out else out)).
+       if n <? k then
+         if n <? 0 then Panic PIndex                            (* out[:n] with n < 0 *)
+         else shuffle sw (zfirstn n out)
+       else shuffle sw out).
 
 (* rSampleSlice(r, a, k) *)
 Definition rsample_slice (o : oracle) (sw : list (Z * Z)) (a : list Z) (k : Z) : result (list Z) :=
